@@ -96,11 +96,12 @@ type LockResult struct {
 
 // lock wrapper summaries: method key -> (field, op)
 type wrapperSum struct {
-	Field string
-	Class string
-	Mode  string
-	Acq   bool
-	Try   bool
+	Field  string
+	Class  string
+	Mode   string
+	Acq    bool
+	Try    bool
+	Global string // non-empty: the wrapper locks this package-level mutex
 }
 
 func syncOp(fn *types.Func) (mode string, acquire, try, ok bool) {
@@ -189,6 +190,25 @@ func (p *Prog) lockWrappers() map[string]wrapperSum {
 	}
 	w := map[string]wrapperSum{}
 	for k, fi := range p.Funcs {
+		if fi.Decl.Recv == nil && fi.Decl.Body != nil && len(fi.Decl.Body.List) == 1 {
+			// package-level wrapper around a package-level mutex: func LockX() { xM.Lock() }
+			info := fi.Pkg.TypesInfo
+			if es, ok := fi.Decl.Body.List[0].(*ast.ExprStmt); ok {
+				if call, ok := es.X.(*ast.CallExpr); ok {
+					fn, _ := typeutil.Callee(info, call).(*types.Func)
+					if mode, acq, try, ok := syncOp(fn); ok {
+						if sel, ok := call.Fun.(*ast.SelectorExpr); ok {
+							if id, ok := ast.Unparen(sel.X).(*ast.Ident); ok {
+								if v, ok := info.Uses[id].(*types.Var); ok && v.Parent() == fi.Pkg.Types.Scope() {
+									w[k] = wrapperSum{Field: "", Class: shortPath(fi.Pkg.PkgPath) + "." + v.Name(), Mode: mode, Acq: acq, Try: try, Global: shortPath(fi.Pkg.PkgPath) + "." + v.Name()}
+								}
+							}
+						}
+					}
+				}
+			}
+			continue
+		}
 		if fi.Decl.Recv == nil || fi.Decl.Body == nil || len(fi.Decl.Recv.List) != 1 || len(fi.Decl.Recv.List[0].Names) != 1 {
 			continue
 		}
@@ -249,6 +269,9 @@ func (p *Prog) lockOpOf(pkg *packages.Package, c *ast.CallExpr) *LockOp {
 	fn, _ := typeutil.Callee(info, c).(*types.Func)
 	if fn == nil {
 		return nil
+	}
+	if w, ok := p.lockWrappers()[fkey(fn)]; ok && w.Global != "" {
+		return &LockOp{Path: w.Global, Class: w.Class, Mode: w.Mode, Acquire: w.Acq, Try: w.Try}
 	}
 	sel, ok := ast.Unparen(c.Fun).(*ast.SelectorExpr)
 	if !ok {
